@@ -23,13 +23,18 @@ import re
 import subprocess
 
 import gen_tables
+import itertools
 import modelgen
 import vlib
 
 THEOREMS = ["Yardl.C08.derived_identifier_never_reserved", "Yardl.C08.cpp_suffixes_escape", "Yardl.C08.python_suffix_escapes",
             "Yardl.C08.matlab_suffix_escapes", "Yardl.C08.tables_cover_the_languages", "Yardl.C08.cpp_field_never_reserved",
             "Yardl.C08.python_member_never_reserved", "Yardl.C08.matlab_member_never_reserved", "Yardl.C08.cpp_type_suffix_escapes",
-            "Yardl.C08.cpp_types_table_covers", "Yardl.C08.cpp_type_never_reserved", "Yardl.C08.tables_cover_generated_code_names"]
+            "Yardl.C08.cpp_types_table_covers", "Yardl.C08.cpp_type_never_reserved", "Yardl.C08.tables_cover_generated_code_names",
+            "Yardl.C08.no_reserved_word_ends_with_a_suffix", "Yardl.C08.snake_case_keeps_the_letters", "Yardl.C08.same_snake_case_only_by_capitalisation",
+            "Yardl.C08.underscore_suffix_keeps_members_distinct", "Yardl.C08.underscore_suffix_keeps_enum_values_distinct",
+            "Yardl.C08.cpp_plain_field_suffix_collided", "Yardl.C08.cpp_fields_stay_distinct", "Yardl.C08.cpp_field_rec_never_reserved",
+            "Yardl.C08.pascal_case_keeps_members_distinct", "Yardl.C08.cpp_step_methods_collide_iff", "Yardl.C08.cpp_step_methods_collide_witness"]
 
 
 def run(report, tier, seed):
@@ -81,7 +86,12 @@ def identifiers(report, inproc, lean, reserved, rng, n_random):
     letters = "abcdefghijklmnopqrstuvwxyzABCDEFGHIJKLMNOPQRSTUVWXYZ0123456789"
     for _ in range(n_random):
         words.add(rng.choice("abcdefghijklmnopqrstuvwxyz") + "".join(rng.choice(letters) for _ in range(rng.choice([0, 1, 2, 4, 7, 12]))))
+    # names that look like escaped names: <reserved>Field, <reserved>FieldField, <reserved>Value, <reserved>Type (the C++ suffixes in camelCase)
+    for w in list(reserved.get("cpp", []))[::3 if n_random < 1000 else 1]:
+        if re.fullmatch(r"[a-z][a-z0-9]*", w):
+            words.update([w + "Field", w + "FieldField", w + "Value", w + "_field", w.capitalize() + "Type"])
     words = sorted(w for w in words if w and re.fullmatch(r"[A-Za-z][A-Za-z0-9_]*", w))
+    case_conversions(report, inproc, lean, words, rng, n_random)
     p = subprocess.run([inproc, "idents"], input="\n".join(words).encode(), stdout=subprocess.PIPE, check=True)
     rows = [json.loads(l) for l in p.stdout.decode().splitlines() if l.strip()]
     spec = [("cppField", "cpp", "_field", "snake"), ("pyField", "python", "_", "snake"), ("matlabField", "matlab", "_", "snake"),
@@ -91,7 +101,7 @@ def identifiers(report, inproc, lean, reserved, rng, n_random):
     for r in rows:
         for key, lang, suffix, cased_key in spec:
             cased = r[cased_key]
-            want = lean.ask({"op": "ident", "lang": lang, "suffix": suffix, "cased": cased})["ident"]
+            want = lean.ask({"op": "ident", "lang": lang, "suffix": suffix, "cased": cased, "rule": "recursive" if key == "cppField" else "plain"})["ident"]
             report.case(distinct_key=(key, r["name"]))
             report.count("ident." + key)
             if r[key] != want:
@@ -105,6 +115,48 @@ def identifiers(report, inproc, lean, reserved, rng, n_random):
         want = lean.ask({"op": "ident", "lang": "cpp", "suffix": "_value", "cased": "k" + r["pascal"]})["ident"]
         if r["cppEnumValue"] != want:
             report.violation("identifier:cppEnumValue:differs-from-model", {"name": r["name"], "real": r["cppEnumValue"], "model": want}, "")
+
+
+def case_conversions(report, inproc, lean, words, rng, n_random):
+    """ToSnakeCase / ToUpperSnakeCase / ToPascalCase, the identifiers of every back end and the C++ protocol method names: the real functions
+    against YardlModel/Case.lean — exhaustively on short names over a small alphabet (letters of both cases, digits incl. powers of two, `_`),
+    on random longer names and on digit groups around the strconv.Atoi range; two names of one scope that the model says collide must collide
+    in the real functions too (and the other way round: compared as whole tables)."""
+    alpha = "abAB1248_0"
+    names = list(words)
+    for n in range(1, 5 if n_random < 1000 else 6):
+        names += ["".join(t) for t in itertools.product(alpha, repeat=n)]
+    for _ in range(n_random * 4):
+        names.append("".join(rng.choice("abcxyzABCXYZ0123456789_") for _ in range(rng.choice([5, 6, 7, 9, 12, 20, 30]))))
+    names += ["a_9223372036854775808", "a_9223372036854775807", "a_4611686018427387904", "a_18446744073709551616", "x_008", "x_0", "x_4", "x_5", "x_16",
+              "a1", "ab1", "ab12B", "aB2c", "int32", "base64", "uint8Value", "classField", "classFieldField", "fooImpl", "foo"]
+    names = sorted(set(n for n in names if n))
+    p = subprocess.run([inproc, "idents"], input="\n".join(names).encode(), stdout=subprocess.PIPE, check=True)
+    rows = [json.loads(l) for l in p.stdout.decode().splitlines() if l.strip()]
+    keys = ["snake", "upperSnake", "pascal", "cppField", "pyField", "matlabField", "pyEnumValue", "matlabEnumValue", "cppEnumValue", "cppComputed", "pyComputed"]
+    seen = {}
+    for r in rows:
+        m = lean.ask({"op": "case", "name": r["name"]})
+        report.case(distinct_key=("case", r["name"]))
+        report.count("case.names")
+        if m.get("unmodelled"):
+            report.count("case.unmodelled")
+            continue
+        for k in keys:
+            if m.get(k) != r[k]:
+                report.violation(f"identifier:case-conversion:{k}:differs-from-model",
+                                 {"name": r["name"], "function": k, "real": r[k], "model": m.get(k), "theorem_or_correspondence": f"Case.{k} vs the real function"},
+                                 "the case conversion / identifier derivation of the current source is not the one the theorems of Props/C08 are about")
+        if m["cppWriterMethods"] != r["cppWriterMethods"] or m["cppReaderMethods"] != r["cppReaderMethods"]:
+            report.violation("identifier:case-conversion:cppMethods:differs-from-model", {"name": r["name"], "real": [r["cppWriterMethods"], r["cppReaderMethods"]],
+                                                                                          "model": [m["cppWriterMethods"], m["cppReaderMethods"]]}, "")
+        # C++ fields: distinct converted names must get distinct identifiers (cpp_fields_stay_distinct, evaluated on the real function)
+        if re.fullmatch(r"[a-z][a-zA-Z0-9]*", r["name"]):
+            other = seen.setdefault(r["cppField"], r)
+            if other is not r and other["snake"] != r["snake"]:
+                report.violation("identifier:cppField:two-names-one-identifier", {"names": [other["name"], r["name"]], "snake_case": [other["snake"], r["snake"]],
+                                                                                  "identifier": r["cppField"], "theorem_or_correspondence": "Yardl.C08.cpp_fields_stay_distinct"},
+                                 "two fields with different snake_case names get the same C++ member name")
 
 
 # ------------------------------------------------------------------------------ jobs
@@ -408,6 +460,14 @@ def name_packages(sc, reserved, rng, quick):
         pkg.defs.append({"kind": "record", "name": "R", "tparams": [], "fields": [("x", P("int32"))], "computed": [(a, "x + 1"), (b, "x + 2")]})
         pkg.defs.append({"kind": "protocol", "name": "P", "steps": [("e", ("named", "E", []), False), ("r", ("named", "R", []), True)]})
         yield Job(f"names:collide-symbols-computed-{k}", sc.path(f"n-collide-e{k}"), pkg=pkg, manifest_extra=OPTION_SETS[2][1], compile_cpp=True, ndjson=True, namespace="Collide")
+    # a field named like the escaped form of a reserved field name next to that field (class / classField / classFieldField: one C++ member
+    # name before 017b1ad), same for steps and computed fields
+    for k, w in enumerate(["class", "delete", "union"] if not quick else ["class"]):
+        pkg = modelgen.Package("Collide")
+        pkg.defs.append({"kind": "record", "name": "R", "tparams": [], "fields": [(w, P("int32")), (w + "Field", P("string")), (w + "FieldField", P("float32")), ("x", P("int32")), ("xField", P("int32"))],
+                         "computed": [(w + "Value", "x + 1")]})
+        pkg.defs.append({"kind": "protocol", "name": "P", "steps": [(w, ("named", "R", []), True), (w + "Field", P("int32"), False)]})
+        yield Job(f"names:collide-suffixed-{k}", sc.path(f"n-collide-x{k}"), pkg=pkg, manifest_extra=OPTION_SETS[2][1], compile_cpp=True, ndjson=True, namespace="Collide")
     for ns in (["Class", "Std", "Numpy", "Yardl", "Namespace"] if not quick else ["Class", "Yardl"]):
         pkg = modelgen.Package(ns)
         pkg.defs.append({"kind": "record", "name": "R", "tparams": [], "fields": [("a", P("int32"))]})
